@@ -278,31 +278,43 @@ theorem lastPrev_cons (prev : Option Row) (cur : Row) (curs : List Row) :
     | some x => rfl
     | none => simp at hg
 
+/-- the call index (number of earlier `__init__` runs of the rule set) of each substituted row -/
+def callIdxs (numId : Nat) (slots : List Slot) : Nat → List Row → List Nat
+  | _, [] => []
+  | k, cur :: rest => k :: callIdxs numId slots (nextK numId slots k cur) rest
+
+/-- … and after all of them -/
+def kAfter (numId : Nat) (slots : List Slot) (k : Nat) (curs : List Row) : Nat :=
+  curs.foldl (nextK numId slots) k
+
 theorem dataRows_spec {V : Type} (cv : Conv V) (cfg : Cfg V) (slots : List Slot) (p : Option Nat) :
-    ∀ (rows : List Row) (prev : Option Row) (objs : List (Option (Obj V))) (err : Option Err),
-      dataRows cv cfg slots p prev rows = ⟨objs, err⟩ →
+    ∀ (rows : List Row) (k : Nat) (prev : Option Row) (objs : List (Option (Obj V)))
+      (err : Option Err),
+      dataRows cv cfg slots p k prev rows = ⟨objs, err⟩ →
       ∃ data tail curs, rows = data ++ tail ∧
         (∀ r ∈ data, endFires cfg.stop r = .ok false) ∧
         curRows p prev data = .ok curs ∧
         curs.length = objs.length ∧
-        (∀ (i : Nat) cur o, curs[i]? = some cur → objs[i]? = some o →
-          construct cv cfg.numId cfg.rules slots cur = .ok o) ∧
+        (∀ (i : Nat) cur kk o, curs[i]? = some cur →
+          (callIdxs cfg.numId slots k curs)[i]? = some kk → objs[i]? = some o →
+          construct cv cfg.numId cfg.rules slots kk cur = .ok o) ∧
         (err = none → tail = [] ∨ ∃ t rest, tail = t :: rest ∧ endFires cfg.stop t = .ok true) ∧
         (∀ e, err = some e → ∃ t rest, tail = t :: rest ∧
           (endFires cfg.stop t = .error e ∨
            (endFires cfg.stop t = .ok false ∧
             (curRow p (lastPrev prev curs) t = .error e ∨
              ∃ cur, curRow p (lastPrev prev curs) t = .ok cur ∧
-               construct cv cfg.numId cfg.rules slots cur = .error e)))) := by
+               construct cv cfg.numId cfg.rules slots (kAfter cfg.numId slots k curs) cur
+                 = .error e)))) := by
   intro rows
   induction rows with
   | nil =>
-    intro prev objs err h
+    intro k prev objs err h
     simp only [dataRows] at h
     cases h
     exact ⟨[], [], [], rfl, by simp, rfl, rfl, by simp, fun _ => Or.inl rfl, by simp⟩
   | cons row rest ih =>
-    intro prev objs err h
+    intro k prev objs err h
     simp only [dataRows] at h
     split at h
     · rename_i e hend
@@ -327,12 +339,14 @@ theorem dataRows_spec {V : Type} (cv : Conv V) (cfg : Cfg V) (slots : List Slot)
           cases h
           refine ⟨[], row :: rest, [], rfl, by simp, rfl, rfl, by simp, by simp, ?_⟩
           intro e' he'; cases he'
-          exact ⟨row, rest, rfl, Or.inr ⟨hend, Or.inr ⟨cur, by simpa [lastPrev] using hcur, hcon⟩⟩⟩
+          exact ⟨row, rest, rfl, Or.inr ⟨hend, Or.inr ⟨cur, by simpa [lastPrev] using hcur,
+            by simpa [kAfter] using hcon⟩⟩⟩
         · rename_i o ho
           cases h
           obtain ⟨data, tail, curs, h1, h2, h3, h4, h5, h6, h7⟩ :=
-            ih (some cur) (dataRows cv cfg slots p (some cur) rest).objs
-              (dataRows cv cfg slots p (some cur) rest).err rfl
+            ih (nextK cfg.numId slots k cur) (some cur)
+              (dataRows cv cfg slots p (nextK cfg.numId slots k cur) (some cur) rest).objs
+              (dataRows cv cfg slots p (nextK cfg.numId slots k cur) (some cur) rest).err rfl
           refine ⟨row :: data, tail, cur :: curs, by simp [h1], ?_, by simp [curRows, hcur, h3],
             by simp [h4], ?_, h6, ?_⟩
           · intro r hr
@@ -340,11 +354,16 @@ theorem dataRows_spec {V : Type} (cv : Conv V) (cfg : Cfg V) (slots : List Slot)
             rcases hr with hr | hr
             · exact hr ▸ hend
             · exact h2 r hr
-          · intro i cur' o' hc' ho'
+          · intro i cur' kk o' hc' hk' ho'
             cases i with
-            | zero => simp at hc' ho'; subst hc'; subst ho'; exact ho
-            | succ i => exact h5 i cur' o' (by simpa using hc') (by simpa using ho')
-          · rw [lastPrev_cons]; exact h7
+            | zero =>
+              simp only [callIdxs] at hk'
+              simp at hc' hk' ho'; subst hc'; subst hk'; subst ho'; exact ho
+            | succ i =>
+              simp only [callIdxs] at hk'
+              exact h5 i cur' kk o' (by simpa using hc') (by simpa using hk') (by simpa using ho')
+          · rw [lastPrev_cons]
+            simpa [kAfter] using h7
 
 theorem iterTable_spec {V : Type} (cv : Conv V) (cfg : Cfg V) :
     ∀ (s : Sheet) (objs : List (Option (Obj V))) (err : Option Err),
@@ -352,10 +371,10 @@ theorem iterTable_spec {V : Type} (cv : Conv V) (cfg : Cfg V) :
       ((∀ r ∈ s, rowEmpty r = true) ∧ objs = [] ∧ err = none) ∨
       ∃ pre title rest, s = pre ++ title :: rest ∧ (∀ r ∈ pre, rowEmpty r = true) ∧
         rowEmpty title = false ∧
-        ((∃ e, bindTitles (title.map fun c => titleOf c.val) cfg.rules = .error e ∧
+        ((∃ e, bindTitles (title.map fun c => titleOf c.val) cfg.known cfg.rules = .error e ∧
             objs = [] ∧ err = some e) ∨
-         ∃ slots, bindTitles (title.map fun c => titleOf c.val) cfg.rules = .ok slots ∧
-            dataRows cv cfg slots (ladderPos cfg (title.map fun c => titleOf c.val)) none rest
+         ∃ slots, bindTitles (title.map fun c => titleOf c.val) cfg.known cfg.rules = .ok slots ∧
+            dataRows cv cfg slots (ladderPos cfg (title.map fun c => titleOf c.val)) 0 none rest
               = ⟨objs, err⟩) := by
   intro s
   induction s with
@@ -394,14 +413,15 @@ theorem iterTable_spec {V : Type} (cv : Conv V) (cfg : Cfg V) :
 /-! ## ladder reading = plain reading of the filled sheet -/
 
 theorem dataRows_ladder_irrel {V : Type} (cv : Conv V) (st : Stop) (l l' : Bool) (n : Nat)
-    (rs : List (Rule V)) (slots : List Slot) (p : Option Nat) :
-    ∀ (rows : List Row) (prev : Option Row),
-      dataRows cv ⟨st, l, n, rs⟩ slots p prev rows = dataRows cv ⟨st, l', n, rs⟩ slots p prev rows := by
+    (rs : List (Rule V)) (ex : List Key) (slots : List Slot) (p : Option Nat) :
+    ∀ (rows : List Row) (k : Nat) (prev : Option Row),
+      dataRows cv ⟨st, l, n, rs, ex⟩ slots p k prev rows
+        = dataRows cv ⟨st, l', n, rs, ex⟩ slots p k prev rows := by
   intro rows
   induction rows with
-  | nil => intro prev; simp [dataRows]
+  | nil => intro k prev; simp [dataRows]
   | cons row rest ih =>
-    intro prev
+    intro k prev
     simp only [dataRows]
     split
     · rfl
@@ -413,14 +433,14 @@ theorem dataRows_ladder_irrel {V : Type} (cv : Conv V) (st : Stop) (l l' : Bool)
         · rw [ih]
 
 theorem dataRows_fill {V : Type} (cv : Conv V) (cfg : Cfg V) (slots : List Slot) (p : Option Nat) :
-    ∀ (rows : List Row) (prev : Option Row) (rows' : List Row),
+    ∀ (rows : List Row) (k : Nat) (prev : Option Row) (rows' : List Row),
       fillRows cfg.stop p prev rows = .ok rows' →
-      ∀ prev', dataRows cv cfg slots p prev rows = dataRows cv cfg slots none prev' rows' := by
+      ∀ prev', dataRows cv cfg slots p k prev rows = dataRows cv cfg slots none k prev' rows' := by
   intro rows
   induction rows with
-  | nil => intro prev rows' h prev'; simp [fillRows] at h; subst h; simp [dataRows]
+  | nil => intro k prev rows' h prev'; simp [fillRows] at h; subst h; simp [dataRows]
   | cons row rest ih =>
-    intro prev rows' h prev'
+    intro k prev rows' h prev'
     simp only [fillRows] at h
     split at h
     · rename_i hend
@@ -434,7 +454,7 @@ theorem dataRows_fill {V : Type} (cv : Conv V) (cfg : Cfg V) (slots : List Slot)
           have hend' := endFires_curRow cfg.stop p prev row cur hend hcur
           have hplain : curRow none prev' cur = .ok cur := by simp [curRow]
           simp only [dataRows, hend, hcur, hend', hplain]
-          rw [ih (some cur) r hr (some cur)]
+          rw [ih (nextK cfg.numId slots k cur) (some cur) r hr (some cur)]
     · rename_i hne
       cases h
       simp only [dataRows]
@@ -445,9 +465,10 @@ theorem dataRows_fill {V : Type} (cv : Conv V) (cfg : Cfg V) (slots : List Slot)
         | true => rfl
         | false => exact absurd he (hne)
 
-theorem iterTable_fill {V : Type} (cv : Conv V) (st : Stop) (n : Nat) (rs : List (Rule V)) :
+theorem iterTable_fill {V : Type} (cv : Conv V) (st : Stop) (n : Nat) (rs : List (Rule V))
+    (ex : List Key) :
     ∀ (s s' : Sheet), fillSheet st s = .ok s' →
-      iterTable cv ⟨st, true, n, rs⟩ s = iterTable cv ⟨st, false, n, rs⟩ s' := by
+      iterTable cv ⟨st, true, n, rs, ex⟩ s = iterTable cv ⟨st, false, n, rs, ex⟩ s' := by
   intro s
   induction s with
   | nil => intro s' h; simp [fillSheet] at h; subst h; simp [iterTable]
@@ -471,13 +492,13 @@ theorem iterTable_fill {V : Type} (cv : Conv V) (st : Stop) (n : Nat) (rs : List
       · cases h
       · rename_i r hr
         cases h
-        simp only [iterTable, hre', Bool.false_eq_true, if_false]
+        simp only [iterTable, hre', Bool.false_eq_true, if_false, Cfg.known]
         split
         · rfl
         · rename_i slots _
           simp only [ladderPos, if_true, Bool.false_eq_true, if_false]
-          rw [dataRows_fill cv ⟨st, true, n, rs⟩ slots _ rest none r hr none]
-          exact dataRows_ladder_irrel cv st true false n rs slots none r none
+          rw [dataRows_fill cv ⟨st, true, n, rs, ex⟩ slots _ rest 0 none r hr none]
+          exact dataRows_ladder_irrel cv st true false n rs ex slots none r 0 none
 
 /-! ## which cell holds the value of a column for a data row -/
 
@@ -690,10 +711,10 @@ theorem keyEmpty_true : ∀ (l : List Src), keyEmpty l = .ok true →
       · cases h
 
 theorem construct_none {V : Type} (cv : Conv V) (numId : Nat) (rules : List (Rule V))
-    (slots : List Slot) (row : Row) (h : construct cv numId rules slots row = .ok none) :
+    (slots : List Slot) (k : Nat) (row : Row) (h : construct cv numId rules slots k row = .ok none) :
     0 < numId ∧ ∃ srcs, mapE (srcOf row) slots = .ok srcs ∧
       ((∀ s ∈ srcs.take numId, ∃ c, s = .cell c ∧ c.val = .blank) ∨
-       (∃ attrs, zipInit cv rules srcs = .ok attrs ∧ numId ≤ rules.length ∧
+       (∃ attrs, zipInit cv k rules srcs = .ok attrs ∧ numId ≤ rules.length ∧
           ∀ a ∈ attrs.take numId, a.1.isNone cv = true)) := by
   unfold construct at h
   split at h
@@ -741,5 +762,87 @@ theorem mem_take_of_lt {α : Type} (l : List α) (n k : Nat) (a : α) (hk : k < 
     (h : l[k]? = some a) : a ∈ l.take n := by
   have : (l.take n)[k]? = some a := by rw [List.getElem?_take]; simp [hk, h]
   exact List.mem_of_getElem? this
+
+/-! ## call indices of the default factories -/
+
+theorem callIdxs_length (n : Nat) (sl : List Slot) :
+    ∀ (curs : List Row) (k : Nat), (callIdxs n sl k curs).length = curs.length := by
+  intro curs
+  induction curs with
+  | nil => intro k; rfl
+  | cons c cs ih => intro k; simp [callIdxs, ih]
+
+theorem nextK_bounds (n : Nat) (sl : List Slot) (k : Nat) (cur : Row) :
+    k ≤ nextK n sl k cur ∧ nextK n sl k cur ≤ k + 1 ∧
+    (ranInit n sl cur = true → nextK n sl k cur = k + 1) := by
+  unfold nextK
+  split
+  · exact ⟨by omega, by omega, fun _ => rfl⟩
+  · rename_i h; exact ⟨by omega, by omega, fun h' => absurd h' h⟩
+
+theorem callIdxs_bounds (n : Nat) (sl : List Slot) :
+    ∀ (curs : List Row) (k i kk : Nat), (callIdxs n sl k curs)[i]? = some kk →
+      k ≤ kk ∧ kk ≤ k + i := by
+  intro curs
+  induction curs with
+  | nil => intro k i kk h; simp [callIdxs] at h
+  | cons c cs ih =>
+    intro k i kk h
+    simp only [callIdxs] at h
+    cases i with
+    | zero => simp at h; subst h; omega
+    | succ i =>
+      have := ih (nextK n sl k c) i kk (by simpa using h)
+      have hb := nextK_bounds n sl k c
+      omega
+
+/-- a row whose `__init__` ran pushes the call index of every later row -/
+theorem callIdxs_lt (n : Nat) (sl : List Slot) :
+    ∀ (curs : List Row) (k i i' kk kk' : Nat) (cur : Row), i < i' →
+      (callIdxs n sl k curs)[i]? = some kk → (callIdxs n sl k curs)[i']? = some kk' →
+      curs[i]? = some cur → ranInit n sl cur = true → kk < kk' := by
+  intro curs
+  induction curs with
+  | nil => intro k i i' kk kk' cur _ h; simp [callIdxs] at h
+  | cons c cs ih =>
+    intro k i i' kk kk' cur hii h1 h2 hc hr
+    simp only [callIdxs] at h1 h2
+    cases i' with
+    | zero => omega
+    | succ i' =>
+      cases i with
+      | zero =>
+        simp at h1 hc; subst h1; subst hc
+        have hb := callIdxs_bounds n sl cs (nextK n sl k c) i' kk' (by simpa using h2)
+        have := (nextK_bounds n sl k c).2.2 hr
+        omega
+      | succ i =>
+        exact ih (nextK n sl k c) i i' kk kk' cur (by omega) (by simpa using h1) (by simpa using h2)
+          (by simpa using hc) hr
+
+theorem construct_some_ranInit {V : Type} (cv : Conv V) (numId : Nat) (rules : List (Rule V))
+    (slots : List Slot) (k : Nat) (row : Row) (o : Obj V)
+    (h : construct cv numId rules slots k row = .ok (some o)) : ranInit numId slots row = true := by
+  unfold construct at h
+  unfold ranInit
+  cases hs : mapE (srcOf row) slots with
+  | error e => rw [hs] at h; cases h
+  | ok srcs =>
+    rw [hs] at h
+    simp only [] at h ⊢
+    cases hk : keyEmpty (srcs.take numId) with
+    | error e => rw [hk] at h; cases h
+    | ok ke =>
+      rw [hk] at h
+      simp only [] at h ⊢
+      split at h
+      · cases h
+      · rename_i hc
+        cases ke with
+        | false => simp
+        | true =>
+          by_cases hn : 0 < numId
+          · simp [hn] at hc
+          · simp [hn]
 
 end Xls
